@@ -137,6 +137,39 @@ func init() {
 			panic(pathAbort{kind: abortAssertFail, msg: "vUnreachable: " + a[0].(string)})
 		},
 		"vSymbolic": func(fr *frame, a []value) value { return true },
+		// vNumText: an opaque (symbolic) numeric token text; strconv.Parse*
+		// on it is an uninterpreted function with the documented contract.
+		"vNumText": func(fr *frame, a []value) value {
+			t := fr.i.newVar(8)
+			fr.i.ps.vars = append(fr.i.ps.vars, VarInfo{Name: t.name, Kind: "numtext", Tag: a[0].(string), W: 8})
+			return symstr{[]value{sym{t, types.Uint8}}}
+		},
+		// vParseOracle(fn, text, bits): the result the uninterpreted
+		// strconv function gave (or would give) for these arguments.
+		"vParseOracle": func(fr *frame, a []value) value {
+			fn, bits := a[0].(string), int(fr.i.concretize(a[2], nil))
+			for _, c := range fr.i.ps.ufCalls {
+				if c.fn == fn && c.base == 0 && c.bits == bits && strEqTerm(c.text, a[1]).isTrue() {
+					return tuple{sym{c.val, types.Int64}, fromTerm(c.ok, types.Bool)}
+				}
+			}
+			// never called with these arguments: a fresh result, related to
+			// the calls on the same text with other bit sizes by the facts
+			// that hold for strconv (a narrower size accepts exactly the
+			// values of the wider one that fit, with the same value)
+			v, ok := fr.i.newVar(64), fr.i.newVar(0)
+			fr.i.ps.vars = append(fr.i.ps.vars, VarInfo{Name: v.name, Kind: "oracle-value", W: 64}, VarInfo{Name: ok.name, Kind: "oracle-ok"})
+			nc := ufCall{fn: fn, text: a[1], base: 0, bits: bits, val: v, ok: ok}
+			fr.i.assertTerm(mkOr(mkNot(ok), ufFits(fn, v, bits)))
+			for _, c := range fr.i.ps.ufCalls {
+				if c.fn == fn && c.base == 0 && strEqTerm(c.text, a[1]).isTrue() {
+					fr.i.linkUF(c, nc)
+				}
+			}
+			fr.i.ps.ufCalls = append(fr.i.ps.ufCalls, nc)
+			fr.i.ps.model = nil
+			return tuple{sym{v, types.Int64}, sym{ok, types.Bool}}
+		},
 		// vOverride(name, fn): calls to the function whose SSA name is name
 		// are redirected to fn for the rest of the path (a harness-level stub).
 		// vWrap(name, fn): like vOverride, but a call made directly by fn
@@ -454,18 +487,47 @@ func ext۰strings۰EqualFold(fr *frame, args []value) value {
 	return notModelled{} // executed from SSA (forks on byte classes)
 }
 
+// asciiCase maps a symbolic string byte-wise; bytes >= 0x80 are outside the
+// model (the path ends as unsupported if such a byte is feasible).
+func (i *interpreter) asciiCase(v value, upper bool) value {
+	var out []value
+	for _, b := range strBytes(v) {
+		if c, ok := b.(uint8); ok && c < 0x80 {
+			if upper && c >= 'a' && c <= 'z' {
+				c -= 32
+			} else if !upper && c >= 'A' && c <= 'Z' {
+				c += 32
+			}
+			out = append(out, c)
+			continue
+		}
+		t := termOf(b)
+		if i.decide(mkPred(opULe, mkConst(0x80, 8), t)) {
+			panic(unsupported("strings.ToUpper/ToLower on a symbolic non-ASCII byte"))
+		}
+		lo, hi, delta := uint64('a'), uint64('z'), uint64(0xE0) // -32
+		if !upper {
+			lo, hi, delta = 'A', 'Z', 32
+		}
+		in := mkAnd(mkPred(opULe, mkConst(lo, 8), t), mkPred(opULe, t, mkConst(hi, 8)))
+		out = append(out, fromTerm(mkIte(in, mkBin(opAdd, t, mkConst(delta, 8)), t), types.Uint8))
+	}
+	i.modelsHit["strings.ToUpper/ToLower: ASCII-only model on symbolic bytes"] = true
+	return mkStr(out)
+}
+
 func ext۰strings۰ToUpper(fr *frame, args []value) value {
 	if s, ok := args[0].(string); ok {
 		return strings.ToUpper(s)
 	}
-	panic(unsupported("strings.ToUpper on a symbolic string"))
+	return fr.i.asciiCase(args[0], true)
 }
 
 func ext۰strings۰ToLower(fr *frame, args []value) value {
 	if s, ok := args[0].(string); ok {
 		return strings.ToLower(s)
 	}
-	panic(unsupported("strings.ToLower on a symbolic string"))
+	return fr.i.asciiCase(args[0], false)
 }
 
 func ext۰strings۰Repeat(fr *frame, args []value) value {
@@ -791,7 +853,14 @@ func (i *interpreter) uninterpretedParse(fn string, args []value) value {
 		}
 		i.assertTerm(mkOr(mkNot(ok), fits))
 	}
-	i.ps.ufCalls = append(i.ps.ufCalls, ufCall{fn: fn, text: args[0], base: base, bits: bits, val: v, ok: ok})
+	nc := ufCall{fn: fn, text: args[0], base: base, bits: bits, val: v, ok: ok}
+	for _, c := range i.ps.ufCalls {
+		if c.fn == fn && c.base == base && strEqTerm(c.text, args[0]).isTrue() {
+			i.linkUF(c, nc)
+		}
+	}
+	i.ps.ufCalls = append(i.ps.ufCalls, nc)
+	i.ps.model = nil
 	var n value
 	if fn == "ParseInt" {
 		n = sym{v, types.Int64}
@@ -802,6 +871,36 @@ func (i *interpreter) uninterpretedParse(fn string, args []value) value {
 		return tuple{n, iface{}}
 	}
 	return tuple{concreteOfKind(0, scalarKind(n)), i.mkError("strconv." + fn + ": parsing <symbolic>: invalid syntax")}
+}
+
+// ufFits: value v is representable in bits for ParseInt / ParseUint.
+func ufFits(fn string, v *term, bits int) *term {
+	if bits <= 0 || bits >= 64 {
+		return termTrue
+	}
+	if fn == "ParseInt" {
+		lo := mkConst(uint64(-(int64(1) << (bits - 1))), 64)
+		hi := mkConst(uint64((int64(1)<<(bits-1))-1), 64)
+		return mkAnd(mkPred(opSLe, lo, v), mkPred(opSLe, v, hi))
+	}
+	return mkPred(opULe, v, mkConst((uint64(1)<<bits)-1, 64))
+}
+
+// linkUF asserts the relation between two results of the same strconv
+// function on the same text and base with different bit sizes.
+func (i *interpreter) linkUF(a, b ufCall) {
+	if a.bits == b.bits {
+		i.assertTerm(mkPred(opEq, a.ok, b.ok))
+		i.assertTerm(mkOr(mkNot(a.ok), mkPred(opEq, a.val, b.val)))
+		return
+	}
+	narrow, wide := a, b
+	if a.bits > b.bits {
+		narrow, wide = b, a
+	}
+	// narrow accepts iff wide accepts a value that fits the narrow size
+	i.assertTerm(mkPred(opEq, narrow.ok, mkAnd(wide.ok, ufFits(narrow.fn, wide.val, narrow.bits))))
+	i.assertTerm(mkOr(mkNot(narrow.ok), mkPred(opEq, narrow.val, wide.val)))
 }
 
 type ufCall struct {
